@@ -535,10 +535,33 @@ class GhostNet:
             return _Lookup(self, name)
         if name == "name":
             return SymName(T.var("net", R))
+        if name in ("graph", "_graph"):
+            return _GhostGraph(self)
         raise Unsupported(f"Network.{name} is not part of the ghost view")
 
     def pyvc_is_none(self):
         return False
+
+
+class _GhostGraph:
+    """the little of the networkx graph the element layer may ask directly: the degrees of a node"""
+
+    def __init__(self, net):
+        self.net = net
+
+    def pyvc_getattr(self, interp, name):
+        if name in ("out_degree", "in_degree"):
+            f = n_out if name == "out_degree" else n_in
+
+            def degree(it, a, k):
+                if len(a) != 1 or k:
+                    raise Unsupported(f"graph.{name} called with other than one node")
+                t = _as_ref(a[0], f"graph.{name}")
+                self.net.node_facts(t)
+                return f(t)
+
+            return Builtin(f"graph.{name}", degree)
+        raise Unsupported(f"graph.{name} is not part of the ghost view")
 
 
 def _as_ref(x, what):
